@@ -10,7 +10,9 @@ EXHAUSTIVE = True
 RULE = ("EXHAUSTIVE grid, every run: 15 tag kinds (value, triple, ampersand, comment, long comment, partial, decorator, "
         "block open/close, else, else-chain, inline open/close, partial-block open/close, raw open/close) x {~ before, "
         "~ after, both, none} x 11 left contexts x 11 right contexts drawn from {start/end of template, LF, CRLF, spaces, "
-        "tabs, text, text+LF+indent, blank line}; plus random multi-line templates built from such lines; oracle = the "
+        "tabs, text, text+LF+indent, blank line}; a second EXHAUSTIVE grid with ANOTHER TAG as the neighbour (value, triple, comment, "
+        "value with '~' towards the tag) x gap {none, space, LF, mixed} x text beyond the neighbour x the other side – a '~' removes the gap and nothing "
+        "beyond the neighbouring tag, and a line holding another tag is not standalone; plus random multi-line templates built from such lines; oracle = the "
         "source-level whitespace rules (tilde: the whole whitespace run of the adjacent text; standalone line: "
         "indentation and one line break) evaluated on the source as written; non-trivial = the tag is standalone or has "
         "a tilde next to whitespace; distinct by cell")
@@ -75,14 +77,21 @@ def blank(s):
     return all(c in " \t" for c in s)
 
 
-def spec(kind, tb, ta, L, R):
+def spec(kind, tb, ta, L, R, xpre="", xpost=""):
+    l2, r2, standalone = spec_parts(kind, tb, ta, L, R, xpre, xpost)
+    return scaffold(kind)[2](l2, r2), standalone
+
+
+def spec_parts(kind, tb, ta, L, R, xpre="", xpost=""):
+    """xpre / xpost: source text (a neighbouring tag and what lies beyond it) standing between the scaffold and L / R:
+    it counts for judging the tag's line on the source as written, and no rule reaches into it"""
     pre, post, asm = scaffold(kind)
-    before = pre + L
-    after = R + post
+    before = pre + xpre + L
+    after = R + xpost + post
     # the tag's line, judged on the source as written
     i = max(before.rfind("\n"), -1)
     line_before = before[i + 1:]
-    lead_ok = blank(line_before) and (i >= 0 or True) and not (i < 0 and pre != "")
+    lead_ok = blank(line_before) and (i >= 0 or True) and not (i < 0 and pre + xpre != "")
     if i < 0:
         lead_ok = blank(before)            # the start of the template is a line boundary
     j = after.find("\n")
@@ -107,7 +116,7 @@ def spec(kind, tb, ta, L, R):
             r2 = r2[2:]
         elif r2.startswith("\n"):
             r2 = r2[1:]
-    return asm(l2, r2), standalone
+    return l2, r2, standalone
 
 
 def mk(kind, tb, ta, L, R, idn):
@@ -126,8 +135,76 @@ def mk(kind, tb, ta, L, R, idn):
     return case, {"cell": [kind, tb, ta, L, R], "expect": exp, "standalone": st, "src": src}
 
 
+# neighbouring tags: (source, rendering, strips the gap after it, strips the gap before it)
+NEIGHBOURS = [("{{v}}", "V", False, False), ("{{{v}}}", "V", False, False), ("{{!c}}", "", False, False),
+              ("{{v~}}", "V", True, False), ("{{~v}}", "V", False, True)]
+GAPS = ["", " ", "\n", " \n\t"]
+
+
+def mk_neighbour(kind, tb, ta, side, nb, outer, gap, other, idn):
+    """the tag directly beside ANOTHER TAG (gap = the whitespace between them), with text beyond the neighbour: a '~'
+    removes the gap and nothing beyond the neighbouring tag; a line holding another tag is not a standalone line"""
+    nsrc, nout, strips_after, strips_before = nb
+    if kind in ("comment", "lcomment") and (tb or ta):
+        return None
+    if (kind == "ropen" and side == "right") or (kind == "rclose" and side == "left"):
+        return None                          # inside a raw block the neighbour is text, not a tag
+    pre, post, _ = scaffold(kind)
+    t = tag(kind, tb, ta)
+    if kind == "deco":
+        t = "{{%s*nop this%s}}" % ("~" if tb else "", "~" if ta else "")
+    if side == "left":
+        if strips_before:
+            return None                      # {{~v}} on the left would reach into the outer text: not this grid's subject
+        src = pre + outer + nsrc + gap + t + other + post
+        pre_, post_, asm = scaffold(kind)
+        l_kept = spec_left(kind, tb, ta, gap, other, outer + nsrc)
+        if strips_after:
+            # the neighbour's '~}}' deletes the gap from the text; a standalone partial still takes its indentation from
+            # its line AS WRITTEN (C12), so that indentation comes back as the indentation of the partial's output
+            st = spec_parts(kind, tb, ta, gap, other, outer + nsrc)[2]
+            l_kept = gap[len(gap.rstrip(" \t")):] if (kind == "partial" and st and not tb) else ""
+        r_kept = spec_right(kind, tb, ta, gap, other, outer + nsrc, "")
+        exp = asm(outer + nout + l_kept, r_kept)
+    else:
+        if strips_after:
+            return None
+        src = pre + other + t + gap + nsrc + outer + post
+        pre_, post_, asm = scaffold(kind)
+        l_kept = spec_left(kind, tb, ta, other, gap, "", nsrc + outer)
+        r_kept = spec_right(kind, tb, ta, other, gap, "", nsrc + outer)
+        if strips_before:
+            r_kept = ""
+        exp = asm(l_kept, r_kept + nout + outer)
+    cfg = {"escape": "none", "decorators": [{"name": "nop", "kind": "setctx"}]}
+    case = session(cfg, [("p", "P"), ("q", "Q({{> @partial-block}})")], {"api": "render_template", "src": src},
+                   {"v": "V", "t": True, "f": False})
+    case["id"] = "%s-%s" % (ID, idn)
+    return case, {"cell": ["nb-" + side, kind, tb, ta, nsrc, outer, gap, other], "expect": exp, "standalone": False, "src": src}
+
+
+def spec_left(kind, tb, ta, L, R, xpre="", xpost=""):
+    return spec_parts(kind, tb, ta, L, R, xpre, xpost)[0]
+
+
+def spec_right(kind, tb, ta, L, R, xpre="", xpost=""):
+    return spec_parts(kind, tb, ta, L, R, xpre, xpost)[1]
+
+
 def generate(rng, n, tier="quick"):
     out = []
+    k = 0
+    for kind in KINDS:
+        for tb, ta in itertools.product((False, True), repeat=2):
+            for side in ("left", "right"):
+                for nb in NEIGHBOURS:
+                    for outer in (["x  ", "x\n  w \t"] if side == "left" else ["  z", " \tz\n"]):
+                        for gap in GAPS:
+                            for other in (["", " z", "\n"] if side == "left" else ["", "x ", "\n"]):
+                                r = mk_neighbour(kind, tb, ta, side, nb, outer, gap, other, "n%05d" % k)
+                                k += 1
+                                if r is not None:
+                                    out.append(r)
     k = 0
     for kind in KINDS:
         for tb, ta in itertools.product((False, True), repeat=2):
@@ -186,7 +263,7 @@ def oracle(case, meta, impl):
 
 def nontrivial_key(case, meta, impl):
     c = meta["cell"]
-    if c[0] == "random":
+    if c[0] == "random" or c[0].startswith("nb-"):
         return meta["src"]
     if meta["standalone"] or ((c[1] and c[3][-1:] in tuple(WS)) or (c[2] and c[4][:1] in tuple(WS))):
         return str(c)
